@@ -429,6 +429,15 @@ def _check_trim(c, rec, image, w, spec, Screen):
             if got != exp:
                 raise Violation(f"{what}: graphics footprints {got} != one per image line {exp}", {"kind": "full", "sub": "footprint"})
 
+    # ---- urwid keeps canvases: the same widget is often rendered again at another size (a second view,
+    # a thumbnail, flow + box) before an earlier canvas is trimmed; the earlier canvas must still show what
+    # it was rendered with.  Done for every other case (a pure function of the case).
+    if (c["size"][0] + c["image"]["w"] + c["image"]["h"]) % 2 == 0:
+        other = ((W % 7) + 2, (H % 5) + 2)
+        if other != (W, H):
+            lib(lambda: w.render(other), f"{what}: second render({other})")
+            rec.label("rerendered_before_trim")
+
     # ---- the rectangles to request
     xmarks = sorted({0, pl - 1, pl, pl + 1, pl + iw - 1, pl + iw, pl + iw + 1, W - 1, W})
     ymarks = sorted({0, pt - 1, pt, pt + 1, pt + ih - 1, pt + ih, pt + ih + 1, H - 1, H})
